@@ -409,6 +409,41 @@ where
         let hexs = pk.encode();
         h.expect(hex::decode(&hexs).ok().as_deref() == Some(&hon.pk[..]), "C09.hex", "public key hex form differs from its octets", &[]);
     }
+    // hex forms and the message-scalar codec on boundary values (leading zero bytes, 0, 1, r-1)
+    {
+        use zkryptium::utils::message::bbsplus_message::BBSplusMessage;
+        use zkryptium::utils::util::bbsplus_utils::ScalarExt;
+        let mut rm1 = R_BE;
+        rm1[31] -= 1;
+        let mut one = [0u8; 32];
+        one[31] = 1;
+        let mut small = [0u8; 32];
+        small[20] = 7;
+        for (nm, b) in [("zero", [0u8; 32]), ("one", one), ("leading_zeros", small), ("r_minus_1", rm1)] {
+            let sc = Scalar::from_be_bytes(&b).unwrap();
+            h.stat("C09.scalar_forms");
+            h.expect(ScalarExt::encode(&sc) == hex::encode(b), "C09.scalar_hex", &format!("Scalar::encode differs from the hex of its octets for {}", nm), &[]);
+            h.expect(ScalarExt::to_bytes_be(&sc) == b, "C09.scalar_bytes", &format!("Scalar::to_bytes_be is not the canonical 32 bytes for {}", nm), &[]);
+            h.expect(<Scalar as ScalarExt>::from_bytes_be(&b).ok() == Some(sc), "C09.scalar_from", &format!("Scalar::from_bytes_be loses {}", nm), &[]);
+            let m = BBSplusMessage::new(sc);
+            h.expect(m.to_bytes_be() == b && BBSplusMessage::from_bytes_be(&b).ok().map(|x| x.value) == Some(sc), "C09.message_scalar", &format!("BBSplusMessage byte codec loses {}", nm), &[]);
+            if let Ok(k) = BBSplusSecretKey::from_bytes(&b) {
+                h.expect(k.encode() == hex::encode(b) && k.to_bytes() == b, "C09.sk_hex", &format!("secret key hex/bytes form loses {}", nm), &[]);
+                let js = serde_json::to_string(&k).unwrap();
+                let back: Result<BBSplusSecretKey, _> = serde_json::from_str(&js);
+                h.expect(matches!(&back, Ok(x) if x.to_bytes() == b), "C09.sk_json_boundary", &format!("secret key JSON form loses {}", nm), &[]);
+            }
+            let d = dec(h, "sk", &b);
+            h.expect(matches!(&d, Out::Ok(v) if v[..] == b[..]), "C09.sk_boundary", &format!("secret key octets lose {}", nm), &[h.last()]);
+            let d = dec(h, "blind", &b);
+            h.expect(matches!(&d, Out::Ok(v) if v[..] == b[..]), "C09.blind_boundary", &format!("blind factor octets lose {}", nm), &[h.last()]);
+        }
+        // short / long inputs to the slice-taking scalar decoder
+        for len in [0usize, 31, 33, 64] {
+            let v = vec![1u8; len];
+            h.expect(<Scalar as ScalarExt>::from_bytes_be(&v).is_err(), "C09.scalar_len", "Scalar::from_bytes_be accepted a wrong length", &[]);
+        }
+    }
     // forbidden classes
     let hon = honest_artefacts::<CS>(h, 2, 1);
     let id1 = G1Affine::identity().to_compressed();
